@@ -13,6 +13,11 @@ SPEC = {
             "rnd: seeded 300-op histories (insert biased to ties/duplicates, erase present, erase absent, erase_advance "
             "sweeps; grow/balanced/phased fill-drain profiles) on 2-D grids of side 2..12 and 3-D grids of side 2..5. "
             "destroy: seven empty-tree destruction scenarios, each in a forked child. "
+            "Entry points: insertion through insert(pt,v) and emplace(pt) (value 0; every insert/emplace choice enumerated "
+            "in the exh insert phase, mixed elsewhere), erasure through erase(pt,v), erase_advance in sweeps and "
+            "erase_advance on the iterator returned by insert; iteration with ++it, `it++;`, the value of `*it++`, "
+            "range-for, and both `it != end` / `!(it == end())` tests (sweeps: every mask x 3 increment forms for <=4 "
+            "points). "
             "After EVERY operation: structural walk through private members (parent/child back pointers, child.dim == "
             "(parent.dim+1)%D, strict < on every `before` descendant and >= on every `after_or_equal` descendant, "
             "reachable count == node_count, reachable multiset == model) and size(); on every state not seen earlier in "
@@ -46,6 +51,10 @@ SPEC = {
         "sweep:2d:erase-all", "sweep:2d:erase-some", "sweep:2d:erase-none", "sweep:3d:erase-some",
         "at:hit", "at:hit-duplicate-point", "at:miss", "within:result-some", "within:result-all", "within:result-empty",
         "within:empty-tree:*", "exists-box:true", "exists-box:false", "erase:absent-value-sweep",
+        "insert:2d:via-emplace", "insert:3d:via-emplace", "erase:2d:via-iterator-returned-by-insert",
+        "iterate-form:pre-increment", "iterate-form:range-for", "iterate-form:post-increment-value",
+        "iterate-form:post-increment-statement", "sweep-form:pre-increment", "sweep-form:post-increment-statement",
+        "sweep-form:post-increment-value",
         "destroy:2d:non-empty", "destroy:3d:non-empty", "destroy:empty:forked-scenario",
         "rnd:2d:side2", "rnd:2d:side12", "rnd:3d:side*",
     ],
@@ -58,8 +67,8 @@ SPEC = {
     "assumptions": ASSUME_COMMON + [
         "private members are reached with `#define private public` around the single KDTree.hh include (header-only "
         "template; every std header it uses is included before); no phosg source is modified",
-        "within() on an EMPTY tree may throw out_of_range or return {} (both accepted); emplace() does not instantiate "
-        "and is not exercised; at(pt) may return the value of any entry stored at pt",
+        "within() on an EMPTY tree may throw out_of_range or return {} (both accepted); emplace() instantiates only "
+        "with zero value arguments (emplace(pt) adds (pt, 0)) and is exercised in that form; at(pt) may return the value of any entry stored at pt",
         "a state reached by an operation prefix identical to one already checked earlier in the enumeration is not "
         "re-observed for 5- and 6-point sequences (KDTree is deterministic); return value and size() are still checked",
         "if a forked probe shows that ~KDTree() on an empty tree crashes, the exh/rnd parts release empty trees without "
